@@ -99,6 +99,14 @@ def run_shard(ctx):
                                  "json_dump": thorough or rng.random() < 0.5})
         if j == 0:
             ctx.sample({"ddl": ddl[:700], "modes": MODES})
+    # scripts whose result is empty: still a list / the grouped dict, and json_dump=True still the JSON text "[]"
+    for q, ddl in enumerate(["", "\n", "  ", "-- c only\n", "USE db;\nGO\n", "GRANT ALL ON t TO joe;\n", "INSERT INTO t VALUES (1);\nDELETE FROM t;\n", "SELECT 1;\n", "/* b */\n"]):
+        for mode in MODES:
+            for nn, gbt in [(False, False), (False, True), (True, False)]:
+                q += 1
+                if ctx.mine(q):
+                    check_case(ctx, {"gen": "empty", "ddl": ddl, "ctor": {"normalize_names": True} if nn else {}, "mode": mode, "group_by_type": gbt, "json_dump": True})
+                    ctx.obs["empty_result_scripts"] += 1
     # enumerated key clauses: every pattern of sort directions over 2..3 key columns, named or not, [NON]CLUSTERED or not -
     # primary_key must stay a list of the table's column names
     import itertools
